@@ -270,6 +270,8 @@ def apply_mutant(d, m):
 def main():
     ap = argparse.ArgumentParser()
     ap.add_argument('--only', default='')
+    ap.add_argument('--json-out', default='',
+                    help='with --only: write the results to this file')
     ap.add_argument('--runs', type=int, default=0)
     ap.add_argument('--fast', action='store_true',
                     help='report violations without minimising / replaying')
@@ -375,6 +377,9 @@ def main():
         print('harmless refactors: %d, alarms: %s' % (len(results), alarms))
     if not a.only:
         with open(os.path.join(VERIF, name), 'w') as f:
+            json.dump(results, f, indent=1)
+    elif a.json_out:
+        with open(a.json_out, 'w') as f:
             json.dump(results, f, indent=1)
     missed = [r['mutant'] for r in results if r.get('applied') and
               r.get('tests_pass') and not r.get('caught_by')]
